@@ -340,7 +340,8 @@ func (conn *Conn) read(ctx *Context, async bool) {
 		if ctx.Error == shutdownMsg {
 			call.Error = ErrShutdown
 		} else {
-			call.Error = errors.New(ctx.Error)
+			// ctx.Error may alias the pooled read buffer, which is recycled below: the error keeps its own copy
+			call.Error = errors.New(string([]byte(ctx.Error)))
 		}
 		err = conn.codec.ReadResponseBody(nil, nil)
 		if err != nil {
